@@ -330,3 +330,79 @@ def cache_growth_table(prog, chk):
             ok = q.ret != 0 and cache == Ptr("OLD") and size == old + 1 and Ptr("OLD") not in freed
             what = "expected a refusal and nothing changed; source: status %s, cache %s, size option %s, released %s" % (hex(q.ret) if isinstance(q.ret, int) else q.ret, cache, size, freed)
         chk.ob("C13.grow", inst, ok, what, loc=fn.loc(), fn=fn, nontrivial=new > old)
+
+
+def endpoint_tables(prog, chk):
+    """Configuring an asynchronous service's endpoint is all-or-nothing.  (1) asyncService_setupAsyncClient attaches the transport
+    client to the service only after *_setService has succeeded on it (must-pass over every write of service->impl, direct or through an
+    out-argument): a client kept after a failed configuration makes every later setEndpoint answer KSI_INVALID_STATE.  (2) the TCP and
+    HTTP setService functions are evaluated with each of their three string copies failing on a client that already has an endpoint:
+    after an error all three values are the old ones and none of them was released; after KSI_OK all three are the new copies and the
+    old ones were released once."""
+    from ksirules.flow import g_ok, must_pass, path_lines
+    from ksirules.interp import TOP, Interp, Ptr, succeed_model
+    from ksirules.model import AnalysisBroken, lvalue_key, strip, walk
+    chk.rule("C13.endpoint", "async endpoint configuration is all-or-nothing (client attached only when configured; setService decision tables)", floor=9)
+    fs = prog.fn("asyncService_setupAsyncClient", "net_async.c")
+    svc = fs.params[0]["n"]
+    writes = set()
+    for b, i, n in fs.nodes():
+        if n.get("k") == "asg" and (lvalue_key(n["l"], fs) or "") == svc + "->impl" and not (strip(n["r"]).get("k") == "int"):
+            writes.add(b)
+        if n.get("k") == "call":
+            for a in n["a"]:
+                for m in walk(a):
+                    if m.get("k") == "un" and m.get("op") == "&" and (lvalue_key(m["e"], fs) or "") == svc + "->impl":
+                        writes.add(b)
+    if not writes:
+        raise AnalysisBroken("asyncService_setupAsyncClient: no write of %s->impl found" % svc)
+    w = must_pass(fs, writes, g_ok({"KSI_TcpAsyncClient_setService", "KSI_HttpAsyncClient_setService"}))
+    chk.ob("C13.endpoint", "setupAsyncClient:impl<=ok(setService)", w is None,
+           "the transport client reaches %s->impl only after its setService succeeded%s" % (svc, "" if w is None else "; a path stores it before (a failed configuration keeps it: "
+                                                                                                "every later setEndpoint returns KSI_INVALID_STATE)"),
+           loc=fs.loc(), fn=fs, path=None if w is None else path_lines(fs, w))
+    for unit, first in (("net_tcp_async.c", "host"), ("net_http_curl_async.c", "url")):
+        fn = prog.fn("setService", unit)
+        pn = [p["n"] for p in fn.params]
+        cp = pn[0]
+        strs = [q for q in pn[1:] if "char" in next(x["t"] for x in fn.params if x["n"] == q)]
+        fields = [first, "ksi_user", "ksi_pass"]
+        for failing in (None, 0, 1, 2):
+            freed, made = [], []
+
+            def dup(I, p, node, args):
+                src = getattr(args[0], "what", None)
+                if src is None:
+                    return TOP
+                k = len(made)
+                made.append(src)
+                if failing is not None and k == failing:
+                    return 0x200
+                out = strip(node["a"][1])
+                I.write(p, I.canon(p, lvalue_key(out["e"], I.fn)), Ptr("copy of " + src))
+                return 0
+            ov = {"KSI_strdup": dup, "KSI_free": lambda I, p, n, a: ((freed.append(a[0]) if a[0] != 0 else None), TOP)[1]}
+            inputs = {cp: Ptr("C"), "C->ctx": Ptr("ctx"), "C->port": 1111}
+            for f in fields:
+                inputs["C->" + f] = Ptr("old " + f)
+            for q, f in zip(strs, fields):
+                inputs[q] = Ptr("new " + f)
+            for q in pn[1:]:
+                if q not in strs:
+                    inputs[q] = 2222
+            I = Interp(fn, inputs=inputs, call_model=succeed_model(prog, ov), on_unknown="stop", prog=prog)
+            paths = I.run()
+            chk.paths += len(paths)
+            inst = "%s setService[%s]" % (unit[4:-2], "all copies made" if failing is None else "copy %d (%s) fails" % (failing + 1, fields[failing]))
+            if len(paths) != 1 or paths[0].undetermined or paths[0].ret is TOP:
+                raise AnalysisBroken("%s setService: evaluation not determined for %s: %s" % (unit, inst, [q_.undetermined[:1] for q_ in paths]))
+            q = paths[0]
+            now = [I.read(q, "C->" + f) for f in fields]
+            old = [Ptr("old " + f) for f in fields]
+            if failing is None:
+                ok = q.ret == 0 and now == [Ptr("copy of new " + f) for f in fields] and sorted(map(str, freed)) == sorted(map(str, old))
+                what = "expected KSI_OK, the three new copies in place, the three old values released once; source: status %s, now %s, released %s" % (q.ret, now, freed)
+            else:
+                ok = q.ret != 0 and now == old and not any(x in old for x in freed)
+                what = "expected an error and the endpoint as it was; source: status %s, now %s, released %s" % (hex(q.ret) if isinstance(q.ret, int) else q.ret, now, freed)
+            chk.ob("C13.endpoint", inst, ok, what, loc=fn.loc(), fn=fn, nontrivial=failing is not None)
